@@ -53,16 +53,6 @@ impl JoinPool {
     }
 
     pub fn hit(&mut self, sid: usize, tid: usize) -> Rnum {
-        let next = match self.replaced.pop() {
-            Some(next) => next.0,
-            None => {
-                let next = self.counter;
-                self.counter += 1;
-
-                next
-            }
-        };
-
         match self.borrowed.entry(Pair(sid, tid)) {
             Entry::Occupied(occupied) => {
                 let result = occupied.remove();
@@ -72,6 +62,16 @@ impl JoinPool {
                 result.try_into().expect("rnum")
             },
             Entry::Vacant(vacant) => {
+                let next = match self.replaced.pop() {
+                    Some(next) => next.0,
+                    None => {
+                        let next = self.counter;
+                        self.counter += 1;
+
+                        next
+                    }
+                };
+
                 vacant.insert(next);
 
                 next.try_into().expect("rnum")
